@@ -2709,4 +2709,463 @@ theorem nodeSet_of_distinct_positions (D : Document) (h : (D.nodes.map Selection
     exact Or.inl ⟨op, hop, mem_nodesList_of_mem _ _ hx⟩
 
 
+/-! ### the reference's errors are pairwise distinct (one per response position) -/
+
+theorem prefix_snoc_unique {α : Type} (p q : List α) (a b : α) (h1 : (p ++ [a]) <+: q) (h2 : (p ++ [b]) <+: q) : a = b := by
+  obtain ⟨t1, rfl⟩ := h1
+  obtain ⟨t2, h2⟩ := h2
+  have : (p ++ ([b] ++ t2)) = (p ++ ([a] ++ t1)) := by simpa [List.append_assoc] using h2
+  have := List.append_cancel_left this
+  simp at this
+  exact this.1.symm
+
+theorem addToGroup_keys_of_mem (g : Grouped) (k : String) (fs : List FieldNode) (h : k ∈ g.keys) :
+    Grouped.keys (Spec.addToGroup g k fs) = g.keys := by
+  induction g with
+  | nil => simp at h
+  | cons p rest ih =>
+    obtain ⟨k', g'⟩ := p
+    by_cases hk : k' = k
+    · rw [addToGroup_cons_eq _ _ _ _ _ hk]; rfl
+    · rw [addToGroup_cons_ne _ _ _ _ _ hk]
+      have : k ∈ Grouped.keys rest := by
+        rcases List.mem_cons.mp h with h | h
+        · exact absurd h.symm hk
+        · exact h
+      simp [ih this]
+
+theorem addToGroup_keys_of_not_mem (g : Grouped) (k : String) (fs : List FieldNode) (h : k ∉ g.keys) :
+    Grouped.keys (Spec.addToGroup g k fs) = g.keys ++ [k] := by
+  induction g with
+  | nil => simp [Spec.addToGroup, Grouped.keys]
+  | cons p rest ih =>
+    obtain ⟨k', g'⟩ := p
+    have hk : k' ≠ k := by intro e; apply h; simp [e]
+    have : k ∉ Grouped.keys rest := by intro m; apply h; exact List.mem_cons_of_mem _ m
+    rw [addToGroup_cons_ne _ _ _ _ _ hk]
+    simp [ih this]
+
+theorem addToGroup_keys_nodup (g : Grouped) (k : String) (fs : List FieldNode) (h : g.keys.Nodup) :
+    (Grouped.keys (Spec.addToGroup g k fs)).Nodup := by
+  by_cases hm : k ∈ g.keys
+  · rw [addToGroup_keys_of_mem g k fs hm]; exact h
+  · rw [addToGroup_keys_of_not_mem g k fs hm, List.nodup_append]
+    refine ⟨h, by simp, ?_⟩
+    intro a ha b hb
+    simp at hb
+    subst hb
+    intro e; subst e; exact hm ha
+
+theorem mergeGroups_keys_nodup (g fg : Grouped) (h : g.keys.Nodup) : (Grouped.keys (Spec.mergeGroups g fg)).Nodup := by
+  unfold Spec.mergeGroups
+  induction fg generalizing g with
+  | nil => exact h
+  | cons p rest ih => exact ih _ (addToGroup_keys_nodup g p.1 p.2 h)
+
+theorem collectSelection_keys_nodup (S : Schema) (D : Document) (o : ObjT)
+    (recur : List Selection → List String → Option (Grouped × List String))
+    (acc : Grouped × List String) (sel : Selection) (r : Grouped × List String)
+    (hacc : acc.1.keys.Nodup) (h : Spec.collectSelection S D o recur acc sel = some r) : r.1.keys.Nodup := by
+  unfold Spec.collectSelection at h
+  obtain ⟨grouped, visited⟩ := acc
+  simp only at h hacc
+  by_cases hx : Spec.excluded sel.dirs = true
+  · simp only [hx, if_true, Option.some.injEq] at h; subst h; exact hacc
+  · simp only [hx, Bool.false_eq_true, if_false] at h
+    cases sel with
+    | field pos alias name wkey argErr dirs sub =>
+      simp only [Option.some.injEq] at h; subst h
+      exact addToGroup_keys_nodup _ _ _ hacc
+    | spread pos name dirs =>
+      simp only at h
+      by_cases hv : name ∈ visited
+      · simp only [hv, if_true, Option.some.injEq] at h; subst h; exact hacc
+      · simp only [hv, if_false] at h
+        cases hf : Spec.fragmentNamed D name with
+        | none => simp only [hf, Option.some.injEq] at h; subst h; exact hacc
+        | some fr =>
+          simp only [hf] at h
+          by_cases ha : Spec.doesFragmentTypeApply S o fr.tc = true
+          · simp only [ha, if_true] at h
+            cases hr : recur fr.sels (name :: visited) with
+            | none => simp [hr] at h
+            | some q =>
+              obtain ⟨fg, v⟩ := q
+              simp only [hr, Option.some.injEq] at h; subst h
+              exact mergeGroups_keys_nodup _ _ hacc
+          · simp only [ha, Bool.false_eq_true, if_false, Option.some.injEq] at h; subst h; exact hacc
+    | inline pos tc dirs sub =>
+      have key : ∀ (h' : (match recur sub visited with
+                          | none => none
+                          | some (fg, visited) => some (Spec.mergeGroups grouped fg, visited)) = some r), r.1.keys.Nodup := by
+        intro h'
+        cases hr : recur sub visited with
+        | none => simp [hr] at h'
+        | some q =>
+          obtain ⟨fg, v⟩ := q
+          simp only [hr, Option.some.injEq] at h'; subst h'
+          exact mergeGroups_keys_nodup _ _ hacc
+      cases tc with
+      | none => simp only [if_true] at h; exact key h
+      | some tc =>
+        simp only at h
+        by_cases ha : Spec.doesFragmentTypeApply S o tc = true
+        · simp only [ha, if_true] at h; exact key h
+        · simp only [ha, Bool.false_eq_true, if_false, Option.some.injEq] at h; subst h; exact hacc
+
+theorem spec_collect_keys_nodup (S : Schema) (D : Document) (o : ObjT) (fuel : Nat) (sels : List Selection)
+    (vis : List String) (r : Grouped × List String) (h : Spec.collectFields S D o fuel sels vis = some r) :
+    r.1.keys.Nodup := by
+  cases fuel with
+  | zero => simp [Spec.collectFields] at h
+  | succ fuel =>
+    simp only [Spec.collectFields] at h
+    have fold : ∀ (sels : List Selection) (acc r : Grouped × List String), acc.1.keys.Nodup →
+        sels.foldlM (Spec.collectSelection S D o (Spec.collectFields S D o fuel)) acc = some r → r.1.keys.Nodup := by
+      intro sels
+      induction sels with
+      | nil =>
+        intro acc r hacc h
+        simp only [List.foldlM_nil, pure, Option.some.injEq] at h
+        subst h; exact hacc
+      | cons sel rest ihl =>
+        intro acc r hacc h
+        simp only [List.foldlM_cons] at h
+        cases h1 : Spec.collectSelection S D o (Spec.collectFields S D o fuel) acc sel with
+        | none => simp [h1] at h
+        | some acc' =>
+          simp only [h1, Option.bind_eq_bind, Option.bind_some] at h
+          exact ihl acc' r (collectSelection_keys_nodup S D o _ acc sel acc' hacc h1) h
+    exact fold sels ([], vis) r (by simp) h
+
+
+/-- errors of a reference outcome at response position `path`: all beneath it, pairwise distinct -/
+def ErrInv2 (path : Path) (s : Spec.SOut) : Prop := (∀ e ∈ s.all, path <+: e.path) ∧ s.all.Nodup
+
+/-- … and a plain null (no failure) carries no error -/
+def ErrInv (path : Path) (s : Spec.SOut) : Prop := ErrInv2 path s ∧ (s.data = some .null → s.all = [])
+
+theorem errInv_fieldError (path : Path) (e : Err) (h : e.path = path) : ErrInv path (Spec.fieldError e) := by
+  refine ⟨⟨?_, by simp [Spec.fieldError]⟩, by simp [Spec.fieldError]⟩
+  intro x hx
+  simp only [Spec.fieldError, List.mem_singleton] at hx
+  subst hx; rw [h]; exact List.prefix_refl _
+
+theorem errInv_completed (path : Path) (j : Json) : ErrInv path (Spec.completed j) := by
+  refine ⟨⟨by simp [Spec.completed], by simp [Spec.completed]⟩, by simp [Spec.completed]⟩
+
+theorem atPosition_all (t : TypeRef) (r : Spec.SOut) : (Spec.atPosition t r).all = r.all := by
+  cases t with
+  | nonNull t => rfl
+  | named n => simp only [Spec.atPosition]; cases r.data <;> rfl
+  | list t => simp only [Spec.atPosition]; cases r.data <;> rfl
+
+theorem combineFields_all_some (k : String) (s : Spec.SOut) (rs : List (Option (String × Spec.SOut))) :
+    (Spec.combineFields (some (k, s) :: rs)).all = s.all ++ (Spec.combineFields rs).all := by
+  cases hd : s.data with
+  | none => rw [combineFields_some_fail k s rs hd]
+  | some j => rw [combineFields_some_ok k s j rs hd]
+
+theorem combineFields_data_ne_null (rs : List (Option (String × Spec.SOut))) : (Spec.combineFields rs).data ≠ some .null := by
+  rcases combineFields_data_shape rs with h | ⟨kvs, h⟩ <;> simp [h]
+
+theorem combineItems_all_cons (s : Spec.SOut) (rs : List Spec.SOut) :
+    (Spec.combineItems (s :: rs)).all = s.all ++ (Spec.combineItems rs).all := by
+  cases hd : s.data with
+  | none => rw [combineItems_fail s rs hd]
+  | some j => rw [combineItems_ok s j rs hd]
+
+theorem combineItems_data_ne_null (rs : List Spec.SOut) : (Spec.combineItems rs).data ≠ some .null := by
+  simp only [Spec.combineItems]
+  cases List.find? (fun r => r.data.isNone) rs <;> simp
+
+theorem prefix_of_snoc_prefix {α : Type} (p q : List α) (a : α) (h : (p ++ [a]) <+: q) : p <+: q :=
+  List.IsPrefix.trans (List.prefix_append p [a]) h
+
+theorem entries_errInv (o : ObjT) (objVal : RVal) (path : Path)
+    (sc : TypeRef → List FieldNode → FieldNode → RVal → Path → Option Spec.SOut)
+    (H : ∀ t fields f0 v p s, sc t fields f0 v p = some s → ErrInv p s)
+    (g : Grouped) (rs : List (Option (String × Spec.SOut))) (hnd : g.keys.Nodup)
+    (hrs : g.mapM (Spec.executeEntry o objVal path sc) = some rs) :
+    (Spec.combineFields rs).all.Nodup ∧
+    ∀ e ∈ (Spec.combineFields rs).all, ∃ k ∈ g.keys, (path ++ [PathSeg.key k]) <+: e.path := by
+  induction g generalizing rs with
+  | nil =>
+    simp only [List.mapM_nil, pure, Option.some.injEq] at hrs
+    subst hrs
+    simp [combineFields_nil]
+  | cons p rest ih =>
+    obtain ⟨key, fields⟩ := p
+    obtain ⟨entry, rs', hentry, hrest, rfl⟩ := option_mapM_cons _ _ _ _ hrs
+    have hnd' : (Grouped.keys rest).Nodup := (List.nodup_cons.mp hnd).2
+    have hk : key ∉ Grouped.keys rest := (List.nodup_cons.mp hnd).1
+    obtain ⟨ih1, ih2⟩ := ih rs' hnd' hrest
+    cases entry with
+    | none =>
+      rw [combineFields_none]
+      refine ⟨ih1, ?_⟩
+      intro e he
+      obtain ⟨k, hk', hp⟩ := ih2 e he
+      exact ⟨k, List.mem_cons_of_mem _ hk', hp⟩
+    | some ks =>
+      obtain ⟨k, s⟩ := ks
+      -- the entry's outcome is at position path ++ [key]
+      have hs : k = key ∧ ErrInv2 (path ++ [PathSeg.key key]) s := by
+        cases fields with
+        | nil => simp [Spec.executeEntry] at hentry
+        | cons f0 tl =>
+          simp only [Spec.executeEntry] at hentry
+          by_cases htn : f0.name = "__typename"
+          · simp only [htn, if_true, Option.some.injEq, Prod.mk.injEq] at hentry
+            obtain ⟨rfl, rfl⟩ := hentry
+            exact ⟨rfl, (errInv_completed _ _).1⟩
+          · simp only [htn, if_false] at hentry
+            cases hfd : o.fields.find? (fun (fd : FieldDef) => decide (fd.name = f0.name)) with
+            | none => simp [hfd] at hentry
+            | some fd =>
+              simp only [hfd] at hentry
+              have hex : ∃ r0, k = key ∧ s = Spec.atPosition fd.type r0 ∧ ErrInv (path ++ [PathSeg.key key]) r0 := by
+                cases hae : f0.argErr with
+                | some ae =>
+                  simp only [hae, Option.map_some, Option.some.injEq, Prod.mk.injEq] at hentry
+                  exact ⟨_, hentry.1.symm, hentry.2.symm, errInv_fieldError _ _ rfl⟩
+                | none =>
+                  simp only [hae] at hentry
+                  cases hres : resolve objVal f0.wkey with
+                  | err m =>
+                    simp only [hres, Option.map_some, Option.some.injEq, Prod.mk.injEq] at hentry
+                    exact ⟨_, hentry.1.symm, hentry.2.symm, errInv_fieldError _ _ rfl⟩
+                  | val v =>
+                    simp only [hres] at hentry
+                    cases hsc : sc fd.type (f0 :: tl) f0 v (path ++ [PathSeg.key key]) with
+                    | none => simp [hsc] at hentry
+                    | some r0 =>
+                      simp only [hsc, Option.map_some, Option.some.injEq, Prod.mk.injEq] at hentry
+                      exact ⟨r0, hentry.1.symm, hentry.2.symm, H _ _ _ _ _ _ hsc⟩
+              obtain ⟨r0, h1, h2, h3⟩ := hex
+              refine ⟨h1, ?_⟩
+              rw [h2]
+              unfold ErrInv2
+              rw [atPosition_all]
+              exact h3.1
+      obtain ⟨rfl, hs1, hs2⟩ := hs
+      rw [combineFields_all_some]
+      constructor
+      · rw [List.nodup_append]
+        refine ⟨hs2, ih1, ?_⟩
+        intro a ha b hb hab
+        subst hab
+        obtain ⟨k', hk', hp'⟩ := ih2 a hb
+        have := prefix_snoc_unique path a.path _ _ (hs1 a ha) hp'
+        simp only [PathSeg.key.injEq] at this
+        subst this
+        exact hk hk'
+      · intro e he
+        rcases List.mem_append.mp he with he | he
+        · exact ⟨k, List.mem_cons_self .., hs1 e he⟩
+        · obtain ⟨k', hk', hp'⟩ := ih2 e he
+          exact ⟨k', List.mem_cons_of_mem _ hk', hp'⟩
+
+theorem items_errInv (inner : TypeRef) (path : Path) (sc : RVal → Path → Option Spec.SOut)
+    (H : ∀ v p s, sc v p = some s → ErrInv p s)
+    (items : List RVal) (i : Nat) (rs : List Spec.SOut)
+    (hrs : (items.zipIdx i).mapM (Spec.completeItem inner path sc) = some rs) :
+    (Spec.combineItems rs).all.Nodup ∧
+    ∀ e ∈ (Spec.combineItems rs).all, ∃ n, i ≤ n ∧ (path ++ [PathSeg.idx n]) <+: e.path := by
+  induction items generalizing i rs with
+  | nil =>
+    simp only [List.zipIdx_nil, List.mapM_nil, pure, Option.some.injEq] at hrs
+    subst hrs
+    simp [combineItems_nil]
+  | cons v rest ih =>
+    simp only [List.zipIdx_cons] at hrs
+    obtain ⟨s0, rs', hs0, hrest, rfl⟩ := option_mapM_cons _ _ _ _ hrs
+    obtain ⟨ih1, ih2⟩ := ih (i + 1) rs' hrest
+    simp only [Spec.completeItem] at hs0
+    cases hsc : sc v (path ++ [PathSeg.idx i]) with
+    | none => simp [hsc] at hs0
+    | some r0 =>
+      simp only [hsc, Option.map_some, Option.some.injEq] at hs0
+      subst hs0
+      have h0 := (H _ _ _ hsc).1
+      rw [combineItems_all_cons, atPosition_all]
+      constructor
+      · rw [List.nodup_append]
+        refine ⟨h0.2, ih1, ?_⟩
+        intro a ha b hb hab
+        subst hab
+        obtain ⟨n, hn, hp⟩ := ih2 a hb
+        have := prefix_snoc_unique path a.path _ _ (h0.1 a ha) hp
+        simp only [PathSeg.idx.injEq] at this
+        omega
+      · intro e he
+        rcases List.mem_append.mp he with he | he
+        · exact ⟨i, Nat.le_refl _, h0.1 e he⟩
+        · obtain ⟨n, hn, hp⟩ := ih2 e he
+          exact ⟨n, by omega, hp⟩
+
+
+def SpecInvC (S : Schema) (D : Document) (fuel : Nat) : Prop :=
+  ∀ t fields f0 v path s, Spec.completeValue S D fuel t fields f0 v path = some s → ErrInv path s
+
+def SpecInvS (S : Schema) (D : Document) (fuel : Nat) : Prop :=
+  ∀ o sels v path s, Spec.executeSelectionSet S D fuel o sels v path = some s → ErrInv path s
+
+theorem specInvS_succ (S : Schema) (D : Document) (fuel : Nat) (ih : SpecInvC S D fuel) : SpecInvS S D (fuel + 1) := by
+  intro o sels v path s hs
+  simp only [Spec.executeSelectionSet] at hs
+  cases hcs : Spec.collectFields S D o fuel sels [] with
+  | none => simp [hcs] at hs
+  | some gv =>
+    obtain ⟨g, vis⟩ := gv
+    simp only [hcs] at hs
+    cases hrs : g.mapM (Spec.executeEntry o v path (Spec.completeValue S D fuel)) with
+    | none => simp [hrs] at hs
+    | some rs =>
+      simp only [hrs, Option.map_some, Option.some.injEq] at hs
+      subst hs
+      have hnd := spec_collect_keys_nodup S D o fuel sels [] (g, vis) hcs
+      obtain ⟨h1, h2⟩ := entries_errInv o v path (Spec.completeValue S D fuel) (fun t fields f0 v p s h => ih t fields f0 v p s h) g rs hnd hrs
+      refine ⟨⟨?_, h1⟩, fun h => absurd h (combineFields_data_ne_null rs)⟩
+      intro e he
+      obtain ⟨k, _, hp⟩ := h2 e he
+      exact prefix_of_snoc_prefix _ _ _ hp
+
+theorem specInvC_succ (S : Schema) (D : Document) (fuel : Nat) (ihc : SpecInvC S D fuel) (ihs : SpecInvS S D fuel) :
+    SpecInvC S D (fuel + 1) := by
+  intro t fields f0 v path s hs
+  cases t with
+  | nonNull inner =>
+    simp only [Spec.completeValue] at hs
+    cases hin : Spec.completeValue S D fuel inner fields f0 v path with
+    | none => simp [hin] at hs
+    | some r =>
+      simp only [hin] at hs
+      have hr := ihc inner fields f0 v path r hin
+      cases hd : r.data with
+      | none => simp only [hd, Option.some.injEq] at hs; subst hs; exact hr
+      | some j =>
+        cases j with
+        | null =>
+          simp only [hd, Option.some.injEq] at hs
+          subst hs
+          have hall := hr.2 hd
+          refine ⟨⟨?_, ?_⟩, by simp⟩
+          · intro e he
+            simp only [hall, List.nil_append, List.mem_singleton] at he
+            subst he; exact List.prefix_refl _
+          · simp [hall]
+        | bool b => simp only [hd, Option.some.injEq] at hs; subst hs; exact hr
+        | int z => simp only [hd, Option.some.injEq] at hs; subst hs; exact hr
+        | num m e => simp only [hd, Option.some.injEq] at hs; subst hs; exact hr
+        | str x => simp only [hd, Option.some.injEq] at hs; subst hs; exact hr
+        | arr xs => simp only [hd, Option.some.injEq] at hs; subst hs; exact hr
+        | obj kvs => simp only [hd, Option.some.injEq] at hs; subst hs; exact hr
+  | list inner =>
+    simp only [Spec.completeValue] at hs
+    by_cases hnil : Spec.isNullish v = true
+    · simp only [hnil, if_true, Option.some.injEq] at hs; subst hs; exact errInv_completed _ _
+    · simp only [hnil, Bool.false_eq_true, if_false] at hs
+      cases v with
+      | list items =>
+        simp only at hs
+        cases hrs : (items.zipIdx).mapM (Spec.completeItem inner path (Spec.completeValue S D fuel inner fields f0)) with
+        | none => simp [hrs] at hs
+        | some rs =>
+          simp only [hrs, Option.map_some, Option.some.injEq] at hs
+          subst hs
+          obtain ⟨h1, h2⟩ := items_errInv inner path (Spec.completeValue S D fuel inner fields f0)
+            (fun v p s h => ihc inner fields f0 v p s h) items 0 rs hrs
+          refine ⟨⟨?_, h1⟩, fun h => absurd h (combineItems_data_ne_null rs)⟩
+          intro e he
+          obtain ⟨n, _, hp⟩ := h2 e he
+          exact prefix_of_snoc_prefix _ _ _ hp
+      | leaf g => simp only [Option.some.injEq] at hs; subst hs; exact errInv_fieldError _ _ rfl
+      | null => simp [Spec.isNullish] at hnil
+      | tnil => simp [Spec.isNullish] at hnil
+      | obj ty es => simp only [Option.some.injEq] at hs; subst hs; exact errInv_fieldError _ _ rfl
+  | named n =>
+    simp only [Spec.completeValue] at hs
+    by_cases hnil : Spec.isNullish v = true
+    · simp only [hnil, if_true, Option.some.injEq] at hs; subst hs; exact errInv_completed _ _
+    · simp only [hnil, Bool.false_eq_true, if_false] at hs
+      cases hl : S.lookup n with
+      | none => simp [hl] at hs
+      | some td =>
+        cases td with
+        | scalar k =>
+          simp only [hl] at hs
+          cases v with
+          | leaf g =>
+            simp only at hs
+            cases hc : Spec.resultCoerce k g with
+            | some j => simp only [hc, Option.some.injEq] at hs; subst hs; exact errInv_completed _ _
+            | none => simp only [hc, Option.some.injEq] at hs; subst hs; exact errInv_fieldError _ _ rfl
+          | null => simp [Spec.isNullish] at hnil
+          | tnil => simp [Spec.isNullish] at hnil
+          | list items => simp only [Option.some.injEq] at hs; subst hs; exact errInv_fieldError _ _ rfl
+          | obj ty es => simp only [Option.some.injEq] at hs; subst hs; exact errInv_fieldError _ _ rfl
+        | enum values =>
+          simp only [hl] at hs
+          cases v with
+          | leaf g =>
+            simp only at hs
+            cases hc : Spec.enumCoerce values g with
+            | some j => simp only [hc, Option.some.injEq] at hs; subst hs; exact errInv_completed _ _
+            | none => simp only [hc, Option.some.injEq] at hs; subst hs; exact errInv_fieldError _ _ rfl
+          | null => simp [Spec.isNullish] at hnil
+          | tnil => simp [Spec.isNullish] at hnil
+          | list items => simp only [Option.some.injEq] at hs; subst hs; exact errInv_fieldError _ _ rfl
+          | obj ty es => simp only [Option.some.injEq] at hs; subst hs; exact errInv_fieldError _ _ rfl
+        | object fs is =>
+          simp only [hl] at hs
+          exact ihs _ _ _ _ s hs
+        | interface fs =>
+          simp only [hl] at hs
+          cases hf : (Spec.possibleTypes S n).find? (fun t => isTypeOf t v) with
+          | none => simp only [hf, Option.some.injEq] at hs; subst hs; exact errInv_fieldError _ _ rfl
+          | some tn =>
+            simp only [hf] at hs
+            cases ho : S.object? tn with
+            | none => simp [ho] at hs
+            | some o => simp only [ho] at hs; exact ihs _ _ _ _ s hs
+        | union ms =>
+          simp only [hl] at hs
+          cases hf : (Spec.possibleTypes S n).find? (fun t => isTypeOf t v) with
+          | none => simp only [hf, Option.some.injEq] at hs; subst hs; exact errInv_fieldError _ _ rfl
+          | some tn =>
+            simp only [hf] at hs
+            cases ho : S.object? tn with
+            | none => simp [ho] at hs
+            | some o => simp only [ho] at hs; exact ihs _ _ _ _ s hs
+
+/-- **Every error of the reference is attached to its own response position**: `all` has no
+    duplicates (and every error's path lies beneath the position it was raised at). -/
+theorem spec_errors_distinct (S : Schema) (D : Document) (fuel : Nat) : SpecInvC S D fuel ∧ SpecInvS S D fuel := by
+  induction fuel with
+  | zero =>
+    constructor
+    · intro t fields f0 v path s hs; simp [Spec.completeValue] at hs
+    · intro o sels v path s hs; simp [Spec.executeSelectionSet] at hs
+  | succ fuel ih => exact ⟨specInvC_succ S D fuel ih.1 ih.2, specInvS_succ S D fuel ih.1⟩
+
+theorem spec_request_all_nodup (S : Schema) (D : Document) (fuel : Nat) (opName : String) (root : RVal) (s : Spec.SOut)
+    (hs : Spec.executeRequest S D fuel opName root = .executed s) : s.all.Nodup := by
+  unfold Spec.executeRequest at hs
+  cases hgo : Spec.getOperation D opName with
+  | none => simp [hgo] at hs
+  | some op =>
+    simp only [hgo] at hs
+    cases hroot : (Spec.rootType S op.kind).bind S.object? with
+    | none => simp [hroot] at hs
+    | some o =>
+      simp only [hroot] at hs
+      cases hss : Spec.executeSelectionSet S D fuel o op.sels root [] with
+      | none => simp [hss] at hs
+      | some s' =>
+        simp only [hss, Spec.Result.executed.injEq] at hs
+        subst hs
+        exact ((spec_errors_distinct S D fuel).2 o op.sels root [] s' hss).1.2
+
+
 end ApiFu.C01
